@@ -15,13 +15,15 @@ ImproperTails(v) ==
 DotTokens(toks) == Len(SelectSeq(toks, LAMBDA t : t.t = "dot"))
 
 \* single spaces, none after an opening parenthesis, none before a closing one, no other white space
+\* position i holds the character of a character literal #\c (any character, white space and parentheses included)
+IsCharLit(text, i) == i >= 3 /\ text[i - 1] = BSLASH /\ text[i - 2] = HASH
 LayoutOK(text) ==
-  /\ \A i \in DOMAIN text : text[i] \notin {TAB, LF, CR}
-  /\ \A i \in 1..(Len(text) - 1) : ~(text[i] = SP /\ text[i + 1] = SP)
+  /\ \A i \in DOMAIN text : text[i] \in {TAB, LF, CR} => IsCharLit(text, i)
+  /\ \A i \in 1..(Len(text) - 1) : ~(text[i] = SP /\ text[i + 1] = SP /\ ~IsCharLit(text, i))
   /\ \A i \in 1..(Len(text) - 1) :
-        /\ ~(text[i] = LPAREN /\ text[i + 1] = SP /\ ~(i >= 3 /\ text[i - 1] = BSLASH /\ text[i - 2] = HASH))   \* (not the character #\( )
-        /\ ~(text[i] = SP /\ text[i + 1] = RPAREN)
-  /\ text # <<>> /\ text[1] # SP /\ text[Len(text)] # SP
+        /\ ~(text[i] = LPAREN /\ text[i + 1] = SP /\ ~IsCharLit(text, i))
+        /\ ~(text[i] = SP /\ text[i + 1] = RPAREN /\ ~IsCharLit(text, i))
+  /\ text # <<>> /\ text[1] # SP /\ (text[Len(text)] # SP \/ IsCharLit(text, Len(text)))
 
 Why(e) ==
   LET L == Lex(e.text)
